@@ -21,7 +21,7 @@ PROPS["C16"] = dict(
           "the vertex set and edge set of g, node contents kept; equiv: BeadStructure built with other ids / bead order / edge order / edge "
           "orientation is isStructureEquivalent (both directions), and not equivalent after one bead's name changed or mass changed by >= 1 %; "
           "breakinto: isSingleStructure and breakIntoStructures vs the same references. "
-          "non-trivial (all subs) = >= 2 vertices of maximal degree (> 0), or a cycle, or >= 2 components. Histories: 35 % of the bfs cases explore a Graph object that was labelled from another start vertex before (distances of reachable vertices must be those of a fresh graph)."),
+          "non-trivial (all subs) = >= 2 vertices of maximal degree (> 0), or a cycle, or >= 2 components. Histories: 35 % of the bfs cases explore a Graph object that was labelled from another start vertex before (distances of reachable vertices must be those of a fresh graph). Mass changes range from 2e-8 relative to a factor 2; a change is asserted when the 8-significant-digit forms of the two masses differ (documented resolution of the structure id)."),
     assumptions=COMMON_ASSUME + [
         "simple graphs only (no self loops, no parallel edges), non-negative ids, >= 1 vertex",
         "reduce->expand is compared as SETS of vertices and edges (the statement's wording); an edge listed twice by the expanded graph is "
